@@ -26,7 +26,7 @@ ANCHORS = ["dagrt.expression:collapse_constants",
            "dagrt.expression:_ExpressionCollapsingMapper.map_commut_assoc",
            "dagrt.expression:_ExpressionCollapsingMapper.rec",
            "dagrt.expression:_ConstantFindingMapper.combine"]
-MIN_NONTRIVIAL = {"quick": 15000, "thorough": 200000}
+MIN_NONTRIVIAL = {"quick": 15000, "thorough": 840000}
 REQUIRED_COUNTERS = {"quick": ["hoisted_assignments", "points_evaluated"],
                      "thorough": ["hoisted_assignments", "points_evaluated"]}
 SHARD_TIMEOUT = {"quick": 900, "thorough": 3000}
@@ -36,7 +36,7 @@ FUNCS = ["f", "g", "<func>h"]
 
 
 def plan(tier, seed):
-    per = 200 if tier == "quick" else 2500
+    per = 200 if tier == "quick" else 15000
     return [{"seed": f"C18:{seed}:{k}", "count": per} for k in range(16)]
 
 
